@@ -443,3 +443,10 @@ class DataView:
         return self.m.d[i % self.m.r][i // self.m.r]
     def __setitem__(self, i, v):
         self.m.d[i % self.m.r][i // self.m.r] = v
+    def __add__(self, k):
+        return DataPtr(self, k)
+
+class DataPtr:
+    """m.data() + k"""
+    def __init__(self, view, off):
+        self.view, self.off = view, off
